@@ -1554,8 +1554,9 @@ MANIFEST = {
             "Since rounds 4-5: smoothBSpline, findBetterGoal and perturbPath are modelled as whole routines and run in lock-step (scripted "
             "draws / sampler / goal region), simplify's schedule is modelled and proved by composition over the concrete routine models, "
             "the oracle's validated-motions classification is direction-aware (checkMotion(a,b), not (b,a)), a direction-sensitive "
-            "validator (one-way zone) is part of the scenarios, and partialShortcutPath's sampling-order validation is the open finding "
-            "F170 (witness theorem + proved repaired variant).",
+            "validator (one-way zone) is part of the scenarios, and the model follows the tree after fix F170 (partialShortcutPath asks "
+            "checkMotion in path order; the sampling-order code is kept as the former variant with a witness theorem, and behaving like "
+            "it is a violation).",
     "note": "Trusted: Lean kernel, the three standard axioms, the hand-written models outside the explored scripts, the harness "
             "(which compiles the two source files under test into its own translation unit, proxies the private rng_ and installs a "
             "scripted sampler), the Python oracle's geometry, boost's Dijkstra (assumed to return a shortest walk). IEEE rounding is "
